@@ -42,6 +42,7 @@ macro_rules! extern_wasm {
     ) => {
         $(
             #[cfg(not(target_family = "wasm"))]
+            #[cfg(not(bytecodealliance_wit_bindgen_verif))]
             #[allow(unused, reason = "dummy shim for non-wasm compilation, never invoked")]
             $vis unsafe fn $func_name($($args)*) $(-> $ret)? {
                 unreachable!();
@@ -50,6 +51,19 @@ macro_rules! extern_wasm {
 
         #[cfg(target_family = "wasm")]
         $(#[$extern_attr])*
+        unsafe extern "C" {
+            $(
+                $(#[$func_attr])*
+                $vis fn $func_name($($args)*) $(-> $ret)?;
+            )*
+        }
+
+        // Verification hook: with `--cfg bytecodealliance_wit_bindgen_verif` on
+        // a non-wasm target the intrinsics are plain `extern "C"` symbols
+        // (named by their wasm import name, the wasm import module is
+        // dropped) so a native test harness can link a mock host.
+        #[cfg(all(not(target_family = "wasm"), bytecodealliance_wit_bindgen_verif))]
+        #[allow(unused, reason = "resolved by the linker against a native mock host")]
         unsafe extern "C" {
             $(
                 $(#[$func_attr])*
